@@ -96,6 +96,17 @@ func (mgr *bindingManager) assignChannelNumber() uint16 {
 	return n
 }
 
+// cloneAddr copies a caller's address: the caller may go on to reuse the
+// variable for another peer, which must not change the peer of a binding or
+// a permission.
+func cloneAddr(addr net.Addr) net.Addr {
+	if udp, ok := addr.(*net.UDPAddr); ok {
+		return &net.UDPAddr{IP: append(net.IP(nil), udp.IP...), Port: udp.Port, Zone: udp.Zone}
+	}
+
+	return addr
+}
+
 func (mgr *bindingManager) create(addr net.Addr) *binding {
 	mgr.mutex.Lock()
 	defer mgr.mutex.Unlock()
@@ -123,7 +134,7 @@ func (mgr *bindingManager) create(addr net.Addr) *binding {
 
 	b := &binding{
 		number:       number,
-		addr:         addr,
+		addr:         cloneAddr(addr),
 		mgr:          mgr,
 		_refreshedAt: time.Now(),
 	}
